@@ -6,6 +6,7 @@ from ..graph import Graph
 from ..expr import access_path, path_str, reaching_defs, norm_cond, origins, leaves, defs_in_node
 from ..linear import linear, relation, fmt, rel_str
 from .common import strip_casts, short, comparison
+from ..symb import feasible_reach
 
 UNITS = []
 DRIVERS = ['propagators.cc']
@@ -43,8 +44,21 @@ def rule_r1(ck, prog, rule='C09.R1', fname='HttpTraceContext::InjectImpl', want_
     ranges = []
     lits = {}
     bad = []
+    # the buffer may be filled by helpers that receive it as an array reference of the same size
+    hosts = [(f, buf['id'])]
     for n in f.nodes:
-        if n['k'] == 'subscript' and strip_casts(f, n['base']).get('id') == buf['id']:
+        if n['k'] == 'call' and n.get('ck') in prog.funcs:
+            callee = prog.funcs[n['ck']]
+            for ai, a in enumerate(n.get('args', [])):
+                if a is not None and a >= 0 and strip_casts(f, a).get('id') == buf['id'] and ai < len(callee.params):
+                    if callee.params[ai]['t'].replace(' ', '') == 'char(&)[%d]' % size and callee.blocks:
+                        hosts.append((callee, callee.params[ai]['id']))
+                    elif not strip_targs(n.get('c', '')).endswith('string_view'):
+                        bad.append((n, 'the buffer is handed to %s, which is not analysed' % strip_targs(n.get('c', ''))))
+    f0 = f
+    for (f, bid) in hosts:
+      for n in f.nodes:
+        if n['k'] == 'subscript' and strip_casts(f, n['base']).get('id') == bid:
             iv = f.nodes[n['index']].get('v')
             if iv is None:
                 bad.append((n, 'index is not a compile-time constant'))
@@ -69,6 +83,7 @@ def rule_r1(ck, prog, rule='C09.R1', fname='HttpTraceContext::InjectImpl', want_
                     ranges.append((iv, iv + N, gp))
                 else:
                     bad.append((n, 'address of a buffer element escapes in an unrecognised way'))
+    f = f0
     ranges.sort(key=lambda r: r[0])
     pos = 0
     part_ok = True
@@ -271,13 +286,33 @@ def rule_r4(ck, prog, rule='C09.R4'):
             return None
         return (rel[0], size_sym(rel[1]))
 
-    def need(desc, want_rels, site):
-        def pred(a, b, lab):
-            r = edge_rel(a, lab)
-            return r in want_rels
-        ok = g.must_pass_edge(s, pred)
-        ck.verdict(ok, rule, f, site, s.n, desc if ok else 'the success return is not behind the guard "%s": headers violating it are accepted' % desc)
-    need('field count == 4', {('==0', frozenset({('call:SplitString', 1), ('1', -4)}))}, 'guard:field-count') if False else None
+    # region table: the comparisons over the header length, the field lengths and the version byte are evaluated for representative
+    # values of those quantities (pinned), named booleans and conditional expressions are folded by the path explorer, every other
+    # test stays open; the success return must be reachable exactly in the regions the W3C grammar allows
+    cmp_nodes = []
+    for n in f.nodes:
+        if comparison(f, n['i']):
+            rel = relation(g, rd, f, n['i'], g.root_ctx, True)
+            if rel is not None:
+                cmp_nodes.append((n['i'], rel[0], dict(size_sym(rel[1]))))
+
+    def region_reach(assign):
+        pins = {}
+        for (ni, op, lin) in cmp_nodes:
+            if not all(k == '1' or k in assign for k in lin) or not any(k != '1' for k in lin):
+                continue
+            v = sum(c * (1 if k == '1' else assign[k]) for k, c in lin.items())
+            pins[ni] = (v >= 0) if op == '>=0' else ((v == 0) if op == '==0' else (v != 0))
+        return feasible_reach(g, [g.entry], [s], pins=pins) is not None
+
+    def need_regions(desc, site, good, bad, why):
+        acc = [a for a in good if not region_reach(a)]
+        rej = [a for a in bad if region_reach(a)]
+        ok = not acc and not rej
+        fmt_a = lambda a: ', '.join('%s=%d' % kv for kv in sorted(a.items()) if kv[0] in why_syms)
+        ck.verdict(ok, rule, f, site, s.n, desc if ok else
+                   (('the success return is reachable with %s: ' % fmt_a(rej[0]) + why) if rej else
+                    'a well-formed header (%s) can no longer reach the success return' % fmt_a(acc[0])))
     # field count: comparison of SplitString(...) with 4
     def count_edge(a, b, lab):
         if not lab or not isinstance(lab[0], int):
@@ -294,8 +329,13 @@ def rule_r4(ck, prog, rule='C09.R4'):
         return (op == '!=' and truth is False) or (op == '==' and truth is True)
     ok = g.must_pass_edge(s, count_edge)
     ck.verdict(ok, rule, f, 'guard:field-count', s.n, 'exactly 4 dash-separated fields' if ok else 'the success return is not behind "SplitString(...,4) == 4"')
+    vers = [d for n in f.nodes if n['k'] == 'declstmt' for d in n['decls'] if d['t'] in ('unsigned char', 'uint8_t') and 'init' not in d]
+    vname = vers[0]['name'] if vers else 'version_binary'
+    base = {'|header|': 55, '|F0|': 2, '|F1|': 32, '|F2|': 16, '|F3|': 2, 'V:' + vname: 0}
+    why_syms = set(base)
     for i, sz in ((0, 2), (1, 32), (2, 16), (3, 2)):
-        need('|field %d| == %d' % (i, sz), {('==0', frozenset({('|F%d|' % i, 1), ('1', -sz)}))}, 'guard:size-field-%d' % i)
+        need_regions('|field %d| == %d' % (i, sz), 'guard:size-field-%d' % i, [base], [dict(base, **{'|F%d|' % i: sz - 1}), dict(base, **{'|F%d|' % i: sz + 1})],
+                     'a field of the wrong length is decoded')
     # hex validity of all four
     for i in range(4):
         def hex_edge(a, b, lab, _i=i):
@@ -310,26 +350,14 @@ def rule_r4(ck, prog, rule='C09.R4'):
             return False
         ok = g.must_pass_edge(s, hex_edge)
         ck.verdict(ok, rule, f, 'guard:hex-field-%d' % i, s.n, 'field %d is hex' % i if ok else 'field %d is not checked to be hexadecimal before it is decoded' % i)
-    # version byte
-    vers = [d for n in f.nodes if n['k'] == 'declstmt' for d in n['decls'] if d['t'] in ('unsigned char', 'uint8_t') and 'init' not in d]
-    vname = vers[0]['name'] if vers else 'version_binary'
-    need('version != 0xFF', {('!=0', frozenset({('V:' + vname, 1), ('1', -255)}))}, 'guard:version-not-ff')
-    gt0 = ('>=0', frozenset({('V:' + vname, 1), ('1', -1)}))
-    le0 = ('>=0', frozenset({('V:' + vname, -1)}))
-    ge55 = ('>=0', frozenset({('|header|', 1), ('1', -55)}))
-    eq55 = ('==0', frozenset({('|header|', 1), ('1', -55)}))
-    # success must pass (version>0 & |h|>=55) or (version<=0 & |h|==55)
-    def len_edge(a, b, lab):
-        r = edge_rel(a, lab)
-        if r == ge55:
-            return g.must_pass_edge(a, lambda x, y, l2: edge_rel(x, l2) == gt0)
-        if r == eq55:
-            return g.must_pass_edge(a, lambda x, y, l2: edge_rel(x, l2) == le0)
-        return False
-    ok = g.must_pass_edge(s, len_edge)
-    ck.verdict(ok, rule, f, 'guard:length-by-version', s.n,
-               '(version > 0 and |header| >= 55) or (version == 0 and |header| == 55)' if ok else
-               'the length rule is not "version 00: exactly 55 characters; higher versions: at least 55": over-long version-00 headers (or short future ones) are accepted')
+    # version byte and the length rule
+    V = 'V:' + vname
+    need_regions('version != 0xFF', 'guard:version-not-ff', [dict(base, **{V: 254, '|header|': 55})], [dict(base, **{V: 255}), dict(base, **{V: 255, '|header|': 60})],
+                 'version ff is accepted')
+    need_regions('(version > 0 and |header| >= 55) or (version == 0 and |header| == 55)', 'guard:length-by-version',
+                 [base, dict(base, **{V: 1}), dict(base, **{V: 1, '|header|': 56}), dict(base, **{V: 254, '|header|': 70})],
+                 [dict(base, **{'|header|': 54}), dict(base, **{'|header|': 56}), dict(base, **{V: 1, '|header|': 54})],
+                 'the length rule is not "version 00: exactly 55 characters; higher versions: at least 55": over-long version-00 headers (or short future ones) are accepted')
     # ids valid
     for nm in ('TraceId', 'SpanId'):
         def valid_edge(a, b, lab, _nm=nm):
